@@ -1,5 +1,6 @@
 import CatiiProofs.Walk
 import CatiiProofs.WalkGenBridge
+import CatiiProps.C08
 /-!
 # C14 — walk presents exactly the non-empty uncommon and marginal intersections
 
@@ -104,6 +105,20 @@ theorem generated_walk_common_never_presented (dims : List Dim) (hwf : ∀ d ∈
     (co : Co) (rows : Rows) (h : (co, rows) ∈ WalkGen.walk dims) :
     ∀ i (hi : i < dims.length), co[i]? ≠ some (some dims[i].common) := by
   rw [gen_walk_is_interactions] at h; exact common_never_presented dims hwf hnc co rows h
+
+/-- the merge the regenerated walk performs (`Kern.inter`, the list merge `set_intersect_merge_np` stands for in
+`Gen/WalkGen.lean`) IS what the kernel REGENERATED from the current `set_operations.pyx` returns on those operands - whatever the
+result buffer held before: the walk's row sets are the kernel's, for all strictly increasing row-id arrays -/
+theorem generated_walk_merges_are_the_generated_kernel (junk : Nat → Nat) (a b : List Nat)
+    (ha : Kern.SSorted a) (hb : Kern.SSorted b) :
+    KernGen.set_intersect_merge_np junk a.toArray b.toArray = .ok (Kern.inter a b).toArray := by
+  obtain ⟨out, ho, hs, hm⟩ := C08.generated_intersect_exact junk a.toArray b.toArray (by simpa using ha) (by simpa using hb)
+  rw [ho]
+  congr 1
+  have : out.toList = Kern.inter a b :=
+    Kern.ssorted_ext out.toList (Kern.inter a b) hs (Kern.inter_sorted a b ha)
+      (fun x => by rw [hm x, Kern.mem_inter a b ha hb x])
+  rw [← this]
 
 /-! Non-vacuity: two dimensions over 4 rows; the margin of the first crossed with a category of
 the second is delivered with the rows of that category. -/
